@@ -65,8 +65,8 @@ impl UserModel<'_> {
                     .cloned();
                 // If it is a spill cell we want to save the old value as None, because
                 // the value of a spill cell is determined by the anchor cell
-                let old_value = if matches!(old_value, Some(Cell::SpillCell { .. })) {
-                    None
+                let old_value = if let Some(Cell::SpillCell { s, .. }) = old_value {
+                    Some(Cell::EmptyCell { s })
                 } else {
                     old_value
                 };
